@@ -12,7 +12,7 @@
     [inc_end m g n] / [hh_end g n] = n lies on an included / on an H-H bond, [charge_changed a] = the two charges in typesGH differ.
     Theorems 13-17: the RadiusExpand helpers. *)
 From Coq Require Import List NArith ZArith Bool.
-From SK Require Import lib.LGraph lib.C01_GraphLemmas model.C01_Model model.C01_Opts model.C02_Model model.C02_Store model.C02_Api proof.C02_Store proof.C02_StoreCtx proof.C02_StoreEquiv proof.C02_StoreNest proof.C02_StoreCtx2 proof.C02_CtxFix proof.C02_Spectator proof.C02_Api model.C02_Compare proof.C02_Compare proof.C02_Proof proof.C02_Opts proof.C02_OptsEquiv proof.C02_Ctx proof.C02_Lre proof.C02_LreTrace proof.C02_Sides proof.C02_Sides2 proof.C02_CtxEquiv proof.C02_LreEquiv proof.C02_CtxCentre proof.C02_CtxNest model.C01_String proof.C01_StringEH proof.C02_ExplicitH.
+From SK Require Import lib.LGraph lib.C01_GraphLemmas model.C01_Model model.C01_Opts model.C02_Model model.C02_Store model.C02_Api proof.C02_Store proof.C02_StoreCtx proof.C02_StoreEquiv proof.C02_StoreNest proof.C02_StoreCtx2 proof.C02_CtxFix proof.C02_Spectator proof.C02_Implicit proof.C02_Api model.C02_Compare proof.C02_Compare proof.C02_Proof proof.C02_Opts proof.C02_OptsEquiv proof.C02_Ctx proof.C02_Lre proof.C02_LreTrace proof.C02_Sides proof.C02_Sides2 proof.C02_CtxEquiv proof.C02_LreEquiv proof.C02_CtxCentre proof.C02_CtxNest model.C01_String proof.C01_StringEH proof.C02_ExplicitH.
 (* [extract_k_S] in section 28 is the definition of model/C02_Store.v (proof/C02_Proof.v has a lemma of that name) *)
 From SK Require Import model.C02_Store.
 Import ListNotations.
@@ -907,3 +907,22 @@ Theorem C02_rcS_same_relevant : forall K m (g g' : sits), gnodes g' = gnodes g -
   get_rc_S K false m g' = get_rc_S K false m g.
 Proof. exact rcS_same_relevant. Qed.
 Print Assumptions C02_rcS_same_relevant.
+
+(** 50. The facade implicit_rule(rsmi, disconnected, balance_its) = get_rc(ITSGraph(r, p, balance_its=...), disconnected=...) on the
+        graphs (r, p) of the hydrogen-stripped reaction (importable since /repo fix 28c46fa; compared by the wrap-implicit cases):
+        disconnected = False gives the centre stated on the two sides (theorem 20'); disconnected = True adds exactly the atoms whose
+        charge differs between the two halves of typesGH and every ITS bond between atoms of the result. *)
+Theorem C02_implicit_rule : forall bal (G H : mgraph), wf G -> wf H ->
+  (forall u v, (exists y, adj (get_rc_x K_default false false (emb (its_construct_ab false bal G H))) u v = Some y) <->
+               (adj G u v <> None \/ adj H u v <> None) /\
+               (order_in G u v <> order_in H u v \/
+                (is_h (its_construct_ab false bal G H) u = true /\ is_h (its_construct_ab false bal G H) v = true))) /\
+  (forall n, In n (node_ids (get_rc_x K_default true false (emb (its_construct_ab false bal G H)))) <->
+             In n (node_ids (get_rc_x K_default false false (emb (its_construct_ab false bal G H)))) \/
+             (exists a, label (its_construct_ab false bal G H) n = Some a /\ a_ch (i_G a) <> a_ch (i_H a))) /\
+  (forall u v e, (exists y, adj (get_rc_x K_default true false (emb (its_construct_ab false bal G H))) u v = Some y /\ fst y = e) <->
+                 adj (its_construct_ab false bal G H) u v = Some e /\
+                 In u (node_ids (get_rc_x K_default true false (emb (its_construct_ab false bal G H)))) /\
+                 In v (node_ids (get_rc_x K_default true false (emb (its_construct_ab false bal G H))))).
+Proof. exact implicit_rule_spec. Qed.
+Print Assumptions C02_implicit_rule.
